@@ -593,40 +593,7 @@ func checkC17(c *Ctx) (string, []string) {
 					tgt = mi.X
 				}
 				key := funcKey(f) + " · Decode(" + abbr(exprStr(call.Call.Args[1], shapeOpts)) + ", " + abbr(typeStr(tgt.Type())) + ")"
-				// cycles through the call that avoid the creation point of the target
-				var create *ssa.BasicBlock
-				if a, ok := tgt.(*ssa.Alloc); ok {
-					create = a.Block()
-				}
-				shared := false
-				seen := map[*ssa.BasicBlock]bool{}
-				work := append([]*ssa.BasicBlock{}, call.Block().Succs...)
-				for len(work) > 0 {
-					b := work[len(work)-1]
-					work = work[:len(work)-1]
-					if seen[b] || b == create {
-						continue
-					}
-					seen[b] = true
-					if b == call.Block() {
-						shared = true
-						break
-					}
-					work = append(work, b.Succs...)
-				}
-				if create == call.Block() && create != nil {
-					// alloc and call in one block: fresh iff the alloc precedes the call
-					shared = false
-				}
-				if !shared {
-					c.OK("C17.fresh-decode-target", key, call.Pos(), "target is created for this call (not shared between loop iterations)")
-					return
-				}
-				if ok, why := decodeOverwrites(c, tgt.Type()); ok {
-					c.OK("C17.fresh-decode-target", key, call.Pos(), "target is shared between iterations but its Decode stores the whole receiver on every successful path")
-				} else {
-					c.Bad("C17.fresh-decode-target", key, call.Pos(), "the decode target is shared by the iterations of the enclosing loop and %s: an entry can inherit the previous entry's content", why)
-				}
+				checkFreshDecodeTarget(c, "C17.fresh-decode-target", key, call, tgt)
 			})
 		}
 	}
@@ -705,4 +672,51 @@ func decodeOverwrites(c *Ctx, ptr types.Type) (bool, string) {
 		work = append(work, b.Succs...)
 	}
 	return true, ""
+}
+
+// checkFreshDecodeTarget: a Decode call that sits in a loop decodes into a variable created inside that
+// iteration, or into a type whose Decode stores the whole receiver on every successful path.
+func checkFreshDecodeTarget(c *Ctx, rule, key string, call *ssa.Call, tgt ssa.Value) {
+	// cycles through the call that avoid the creation point of the target
+	var create *ssa.BasicBlock
+	root := tgt
+	for {
+		if fa, ok := root.(*ssa.FieldAddr); ok {
+			root = fa.X
+			continue
+		}
+		break
+	}
+	if a, ok := root.(*ssa.Alloc); ok {
+		create = a.Block()
+	}
+	shared := false
+	seen := map[*ssa.BasicBlock]bool{}
+	work := append([]*ssa.BasicBlock{}, call.Block().Succs...)
+	for len(work) > 0 {
+		b := work[len(work)-1]
+		work = work[:len(work)-1]
+		if seen[b] || b == create {
+			continue
+		}
+		seen[b] = true
+		if b == call.Block() {
+			shared = true
+			break
+		}
+		work = append(work, b.Succs...)
+	}
+	if create == call.Block() && create != nil {
+		// alloc and call in one block: fresh iff the alloc precedes the call
+		shared = false
+	}
+	if !shared {
+		c.OK(rule, key, call.Pos(), "target is created for this call (not shared between loop iterations)")
+		return
+	}
+	if ok, why := decodeOverwrites(c, tgt.Type()); ok {
+		c.OK(rule, key, call.Pos(), "target is shared between iterations but its Decode stores the whole receiver on every successful path")
+	} else {
+		c.Bad(rule, key, call.Pos(), "the decode target is shared by the iterations of the enclosing loop and %s: an entry can inherit the previous entry's content", why)
+	}
 }
